@@ -8,6 +8,8 @@ shared-memory side channel:
 * the shm branch of ``_read_request``,
 * ``_read_batch_with_log_check`` -> ``AnnotatedBatch`` handed to a stream caller,
 * ``resolve_shm_batch`` and the ``release_fn`` closure it returns,
+* the server's stream loop ``RpcServer._serve_stream`` (input regions: released when the next
+  input arrives, and in any case before the output EOS — on return, error, cancel),
 
 over a fake reader (scripted batches, a symbolic read that raises), a fake segment that logs
 ``read_buffer`` / ``free`` / ``close`` events, and ``_deserialize_from_shm`` := fake batch |
@@ -29,21 +31,24 @@ from engine.reglob import reglobalize
 from vgi_rpc import metadata as md
 from vgi_rpc.log import Level
 from vgi_rpc import shm as shm_mod
+from vgi_rpc.rpc import _server as srv_mod
 from vgi_rpc.rpc import _types as types_mod
 from vgi_rpc.rpc import _wire as wire
 from vgi_rpc.rpc._common import RpcError
 
 PROPERTY = "C29"
-ENCODED = [wire._read_unary_response, wire._read_batch_with_log_check, wire._read_request, shm_mod.resolve_shm_batch, types_mod.AnnotatedBatch.release, wire._drain_stream]
+ENCODED = [srv_mod.RpcServer._serve_stream, wire._coerce_input_batch, wire._read_unary_response, wire._read_batch_with_log_check, wire._read_request, shm_mod.resolve_shm_batch, types_mod.AnnotatedBatch.release, wire._drain_stream]
 BOUNDS = (
     "one call: 0..2 log batches (last one possibly EXCEPTION) then one data batch (inline or shm pointer), one symbolic read index 1..4 that raises, "
     "result column present/absent, value None/non-None, declared type optional/non-optional/void, value deserialisation ok/raises, "
-    "offset/length any ints, segment present/absent; request path: resolved row count 0..3, 0..2 columns, static or per-request (owned) segment"
+    "offset/length any ints, segment present/absent; request path: resolved row count 0..3, 0..2 columns, static or per-request (owned) segment; "
+    "server stream loop: exchange stream with 0..2 inputs (thorough 0..3), each inline or shm pointer, each step emit | process raises | emits nothing | "
+    "region undecodable | region of another field set | region of an uncastable type, ended by close or cancel (finite grid: the solver does the case split)"
 )
 OUTSIDE = (
     "identity with inline transfer, dictionary-encoded / zero-column batches, segment exhaustion, maybe_write_to_shm (all Arrow + POSIX shm); "
-    "_serve_stream's input-batch release (a 1000-line method: not encoded — note: it builds the AnnotatedBatch only after _coerce_input_batch, so a "
-    "coercion failure drops the release handle); client StreamSession release policy; double release() by API users (the handle is not idempotent)"
+    "_serve_stream: producer streams (no input regions), headers, external-location inputs, output batches routed through shm (small outputs stay inline), "
+    "more than 2 (quick) / 3 (thorough) inputs per call; client StreamSession release policy; double release() by API users (the handle is not idempotent)"
 )
 ASSUMPTIONS = [
     "int(<offset/length bytes>) := the peer's make_shm_pointer_batch wrote decimal ints: returns that int",
@@ -609,8 +614,22 @@ def _s_request(t: int, mask: int, cancel: bool, offsets: tuple | None = None) ->
     return b.getvalue()
 
 
-# concrete request bytes for every (t, carrier mask, cancel): the symbolic choice only selects
-_S_REQ = tuple(tuple(tuple(_s_request(t, m, c) for c in (False, True)) for m in range(1 << _NS)) for t in range(_NS + 1))
+def _s_tree(t: int, cancel: bool, depth: int = 0, mask: int = 0):  # type: ignore[no-untyped-def]
+    if depth == t:
+        return _s_request(t, mask, cancel)
+    return (_s_tree(t, cancel, depth + 1, mask), _s_tree(t, cancel, depth + 1, mask | (1 << depth)))
+
+
+# concrete request bytes for every (cancel, t, carrier bits of the first t inputs): the symbolic
+# choice only selects, and only the bits of inputs that exist are looked at
+_S_REQ = tuple(tuple(_s_tree(t, c) for t in range(_NS + 1)) for c in (False, True))
+
+
+def _s_pick_request(t: int, mask: int, cancel: bool) -> bytes:
+    node = _S_REQ[1 if cancel else 0][t]
+    for i in range(t):
+        node = node[(mask >> i) % 2]
+    return node
 
 
 class _SClock:
@@ -711,6 +730,8 @@ def _replay_serve_stream(a: dict) -> str | None:
     """Un-stubbed RpcServer._serve_stream, real pyarrow, real POSIX segment holding real regions."""
     t, mask, cancel = a["t"], a["mask"], a["cancel"]
     script = (a["k0"], a["k1"], a["k2"])
+    if a.get("__kinds__") is not None:
+        script = tuple(a["__kinds__"][k] for k in script)
     seg = shm_mod.ShmSegment.create(shm_mod.HEADER_SIZE + 1024 * 1024)
     try:
         offsets: list = []
@@ -741,10 +762,15 @@ def _replay_serve_stream(a: dict) -> str | None:
         live = [o for o, _ln in seg.allocator._read_allocs()]
         leaked = [o for o in consumed if o in live]
         if leaked:
-            why = "its processing raised" if script[last] in (_K_RAISE, _K_NOTHING) else "it could not be coerced/decoded"
+            if last >= t:
+                why = f"all {t} inputs were processed and the client {'cancelled' if cancel else 'closed'}"
+            elif script[last] in (_K_RAISE, _K_NOTHING):
+                why = f"input {last} ended the stream because its processing raised"
+            else:
+                why = f"input {last} ended the stream because its region could not be coerced/decoded"
             return (
-                f"after the stream call ended (output EOS written) {len(leaked)} input region(s) the server had resolved are still allocated at {leaked}: "
-                f"input {last} ended the stream because {why} and its release handle was dropped; live table {seg.allocator._read_allocs()}"
+                f"after the stream call ended (output EOS written) {len(leaked)} input region(s) the server had resolved are still allocated at {leaked} "
+                f"({why}); live table {seg.allocator._read_allocs()}"
             )
         return None
     finally:
@@ -752,14 +778,24 @@ def _replay_serve_stream(a: dict) -> str | None:
         seg.unlink()
 
 
-_T_MAX = pick(3, 3)
+_T_MAX = pick(2, 3)
 _KINDS_A = (_K_EMIT, _K_RAISE, _K_NOTHING, _K_UNDECODABLE)
+
+
+class _LazyScript:
+    """script[i] maps the symbolic index through the kind table only when input i is actually reached."""
+
+    def __init__(self, idx: tuple, table: tuple) -> None:
+        self.idx, self.table = idx, table
+
+    def __getitem__(self, i: int) -> int:
+        return self.table[self.idx[i]]
 
 
 def _serve_stream_accounting(t: int, mask: int, cancel: bool, script: tuple) -> bool:
     _EV.clear()
     _H.clear()
-    tr = _STransport(_S_REQ[t][mask][1 if cancel else 0])
+    tr = _STransport(_s_pick_request(t, mask, cancel))
     _H.update(script=script, i=0, tr=tr)
     try:
         _s_serve_stream(_S_SERVER, tr, _S_SERVER._methods["exch"], {}, shm=_SSeg())
@@ -788,20 +824,20 @@ def _serve_stream_accounting(t: int, mask: int, cancel: bool, script: tuple) -> 
 
 
 @cond(q=90, t=300, stubs=_S_STUBS, encoded=[srv.RpcServer._serve_stream, shm_mod.resolve_shm_batch, types_mod.AnnotatedBatch.release],
-      replay=_replay_serve_stream,
-      bound="exchange stream, 0..3 inputs each inline or shm pointer, per input {emit, process raises, emits nothing (validate raises), region undecodable}, close or cancel",
+      replay=lambda a: _replay_serve_stream(dict(a, __kinds__=_KINDS_A)),
+      bound="exchange stream, 0..%d inputs each inline or shm pointer, per input {emit, process raises, emits nothing (validate raises), region undecodable}, close or cancel" % _T_MAX,
       signature=lambda args, conc: "C29:serve-stream:input-region-not-released")
 def serve_stream_releases_inputs(t: int, mask: int, cancel: bool, k0: int, k1: int, k2: int) -> bool:
     """
-    pre: 0 <= t <= _T_MAX and 0 <= mask < 8 and k0 in _KINDS_A and k1 in _KINDS_A and k2 in _KINDS_A
+    pre: 0 <= t <= _T_MAX and 0 <= mask < 8 and 0 <= k0 <= 3 and 0 <= k1 <= 3 and 0 <= k2 <= 3
     post: _
     """
-    return _serve_stream_accounting(t, mask, cancel, (k0, k1, k2))
+    return _serve_stream_accounting(t, mask, cancel, _LazyScript((k0, k1, k2), _KINDS_A))
 
 
 @cond(q=60, t=200, stubs=_S_STUBS, encoded=[srv.RpcServer._serve_stream, wire._coerce_input_batch, shm_mod.resolve_shm_batch],
       replay=_replay_serve_stream,
-      bound="exchange stream, 1..3 inputs each inline or shm pointer, all echoed except the last: a shm region holding a batch of another field set | an uncastable column type",
+      bound="exchange stream, 1..%d inputs each inline or shm pointer, all echoed except the last: a shm region holding a batch of another field set | an uncastable column type" % _T_MAX,
       signature=lambda args, conc: "C29:serve-stream:uncoercible-input-region-leaked")
 def serve_stream_releases_uncoercible_input(t: int, mask: int, cancel: bool, k0: int, k1: int, k2: int) -> bool:
     """
